@@ -64,8 +64,13 @@ def run(ctx):
             h.successor_clock_behind = ctx.case_rng(ctx.case_index, 'skew%d' % h.cycles).choice([0, 0, 0, 0, 0, 0, 20, 1500, 7200])
             if h.successor_clock_behind:
                 ctx.count('failovers_to_a_host_whose_clock_is_behind')
+            # 1 fail-over in 6: one placement record is removed by another writer between the successor's listing and its read
+            h.record_vanishes_at = ctx.case_rng(ctx.case_index, 'vanish%d' % h.cycles).choice([0, 0, 0, 0, 0, 1, 2, 3, 5])
+            if h.record_vanishes_at:
+                ctx.count('failovers_with_a_record_removed_between_listing_and_read')
             res = crash.in_child(lambda: crash.restart_and_compare(h))
             h.successor_clock_behind = 0
+            h.record_vanishes_at = 0
         ctx.count('restarts_compared')
         if res is None or 'harness_error' in res:
             ctx.count('child_error')
